@@ -156,6 +156,10 @@ def check(run, replay=None, prop="C15", harness_cmd="c15"):
         other_idx = [i for i, l in enumerate(lines) if not l.startswith("hist exhaustive")]
         d = Dict("F")
         ex_terms = [hist_term(lines[i], d) for i in ex_idx]
+        # long histories (bursts): their many frames become top-level definitions of their own file (a term with hundreds of
+        # nested lets takes minutes to type-check), one file per history so that they are evaluated in parallel
+        long_idx = [i for i in other_idx if lines[i].startswith("hist") and lines[i].count(";") > 80]
+        other_idx = [i for i in other_idx if i not in set(long_idx)]
         other_terms = []
         for i in other_idx:
             if lines[i].startswith("codec"):
@@ -164,6 +168,14 @@ def check(run, replay=None, prop="C15", harness_cmd="c15"):
                 dd = Dict("f")
                 body = hist_term(lines[i], dd)
                 other_terms.append("(" + dd.lets() + body + ")")
+        ok3, bad3, log3 = (True, [], "")
+        for n, i in enumerate(long_idx):
+            dl = Dict("G")
+            term = hist_term(lines[i], dl)
+            o, b, lg = vlib.coq_eval_cases("C15", [term], os.path.join(run.dir, "long%d" % n), shard=1, header=dl.defs(), timeout=1500)
+            ok3 = ok3 and o
+            bad3 += [i for _ in b]
+            log3 += lg
         ok1, bad1, log1 = (True, [], "")
         if ex_terms:
             ok1, bad1, log1 = vlib.coq_eval_cases("C15", ex_terms, os.path.join(run.dir, "ex"),
@@ -172,8 +184,9 @@ def check(run, replay=None, prop="C15", harness_cmd="c15"):
         if other_terms:
             ok2, bad2, log2 = vlib.coq_eval_cases("C15", other_terms, os.path.join(run.dir, "rnd"),
                                                   shard=max(10, len(other_terms) // (2 * vlib.NCPU) + 1))
-        corr_ok = ok1 and ok2
-        bad = sorted([ex_idx[b] for b in bad1] + [other_idx[b] for b in bad2])
+        corr_ok = ok1 and ok2 and ok3
+        log2 += log3
+        bad = sorted([ex_idx[b] for b in bad1] + [other_idx[b] for b in bad2] + bad3)
         run.oblige("correspondence %s: Model/Relay.v = real relay and codec on every harness case "
                    "(sink results, per-drain multisets, messages())" % prop, corr_ok and not bad)
         if not corr_ok:
